@@ -255,7 +255,7 @@ pub fn gen_request(s: &mut Src, cfg: &GenCfg, notes: &mut Notes, out: &mut Vec<u
         }
         5 => {
             let d = s.range(0, 2);
-            declared = (cfg.limit as u64 + 1).saturating_sub(d as u64).min(u32::MAX as u64) as usize;
+            declared = (cfg.limit as u64).saturating_add(1).saturating_sub(d as u64).min(u32::MAX as u64) as usize;
             notes.add("cl_near_limit");
             Some(declared.to_string())
         }
